@@ -6,7 +6,7 @@ Copyright 2018, 2019, 2020, 2021, 2022 William W. Kimball, Jr. MBA MSIS
 """
 from collections import OrderedDict
 from copy import copy
-from typing import Any, Dict, Generator, List, Union
+from typing import Any, Dict, Generator, List, Tuple, Union
 
 from ruamel.yaml.compat import ordereddict as ryod
 from ruamel.yaml.comments import (
@@ -751,34 +751,51 @@ class Processor:
         - `YAMLPathException` when the operation would destroy the entire
            document
         """
+        # Unwrap Collector results so every target is handled in one pass
+        flat_nodes: List[NodeCoords] = []
+        pending_nodes: List[Any] = list(reversed(delete_nodes))
+        while pending_nodes:
+            pending_nc = pending_nodes.pop()
+            if isinstance(pending_nc.node, NodeCoords):
+                pending_nodes.append(pending_nc.node)
+            elif (isinstance(pending_nc.node, list)
+                and len(pending_nc.node) > 0
+                and isinstance(pending_nc.node[0], NodeCoords)
+            ):
+                pending_nodes.extend(reversed(pending_nc.node))
+            else:
+                flat_nodes.append(pending_nc)
+
         # Delete each document position only once, however many times it was
         # matched (e.g. via several Aliases of one list); deleting an index
         # twice would otherwise remove a neighboring element, too.
         seen_refs: set = set()
-        unique_nodes: List[NodeCoords] = []
-        for gathered_nc in delete_nodes:
+        unique_nodes: List[Tuple[NodeCoords, Any]] = []
+        for gathered_nc in flat_nodes:
             ref = gathered_nc.parentref
             if (isinstance(gathered_nc.parent, list)
                 and isinstance(ref, int) and ref < 0
             ):
                 ref += len(gathered_nc.parent)
-            if (isinstance(gathered_nc.parent, (dict, list, set, CommentedSet))
-                and not isinstance(gathered_nc.node, NodeCoords)
-                and not (isinstance(gathered_nc.node, list)
-                    and len(gathered_nc.node) > 0
-                    and isinstance(gathered_nc.node[0], NodeCoords))
-            ):
+            if isinstance(gathered_nc.parent, (dict, list, set, CommentedSet)):
                 ref_id = (id(gathered_nc.parent), repr(ref))
                 if ref_id in seen_refs:
                     continue
                 seen_refs.add(ref_id)
-            unique_nodes.append(gathered_nc)
+            unique_nodes.append((gathered_nc, ref))
+
+        # Matches need not arrive in document order (e.g. from Collectors), so
+        # delete the highest Array indexes first lest an earlier deletion
+        # shift the elements still to be deleted.
+        unique_nodes.reverse()
+        unique_nodes.sort(
+            key=lambda pair: -pair[1]
+            if isinstance(pair[0].parent, list) and isinstance(pair[1], int)
+            else 0)
 
         # pylint: disable=locally-disabled,too-many-nested-blocks
-        for delete_nc in reversed(unique_nodes):
-            node = delete_nc.node
+        for (delete_nc, parentref) in unique_nodes:
             parent = delete_nc.parent
-            parentref = delete_nc.parentref
             ancestry = delete_nc.ancestry
             self.logger.debug(
                 "Deleting node:",
@@ -788,13 +805,7 @@ class Processor:
                 data=delete_nc)
 
             # Ensure the reference exists before attempting to delete it
-            if (isinstance(node, list) and len(node) > 0
-                and isinstance(node[0], NodeCoords)
-            ):
-                self._delete_nodes(node)
-            elif isinstance(node, NodeCoords):
-                self._delete_nodes([node])
-            elif isinstance(parent, (CommentedMap, dict)):
+            if isinstance(parent, (CommentedMap, dict)):
                 all_data = ancestry[0][0] if len(ancestry) > 0 else parent
                 all_anchors: Dict[str, Any] = {}
                 Anchors.scan_for_anchors(all_data, all_anchors)
